@@ -150,6 +150,11 @@ Definition run (fn : str) (args : list str) : str :=
         | SelErr => s2l "ERR"
         end
     | _ => s2l "?" end
+  else if str_eqb fn (s2l "glob") then
+    (* pattern, string *)
+    match args with
+    | [pat; x] => bool_str (gmatch pat x)
+    | _ => s2l "?" end
   else if str_eqb fn (s2l "jobsopt") then
     (* the -j value -> R (rejected) or the number of jobs *)
     match args with
